@@ -42,6 +42,7 @@ def run(ck):
                       ('R3.5', 'integer literals outside i64 are rejected'),
                       ('R3.6', 'translatable marking follows qsTr; notr marks exactly the bare strings'),
                       ('R3.7', 'the constant evaluator is conservative: anything it does not model is not a constant'),
+                      ('R3.9', 'string values are written through escaping XML constructors'),
                       ('R3.8', 'evaluated values map onto XML value kinds without changing the payload')):
         ck.rule(rid, text)
 
@@ -332,3 +333,10 @@ def run(ck):
         ifs = [n for n in walk(pa['body']) if n.get('k') == 'If' and any(c.get('m') == 'is_flag' for c in H.calls_in(n['c']))]
         ok = len(ifs) == 2 and all('SimpleValue::Set' in pp(n['then']) and 'SimpleValue::Enum' in pp(n['els']) for n in ifs)
         ck.ob('R3.8', 'flag-enums-are-sets', ok, L.loc(pa['body']), 'is_flag() ? Set : Enum (%d sites)' % len(ifs))
+
+    # ---- R3.9 the text that reaches the .ui is escaped, not pasted (shared with C09 R9.1) ------------------------------------
+    import rules.c09 as c09
+    sh = _core.Shared(ck, 'R3.9', lambda r, k: r == 'R9.1' and any(k.startswith(p) for p in ('write_tagged_str|', 'SimpleValue::serialize_to_xml_as|', 'serialize_string_list_to_xml|')), 'C09:',
+                      ' [a string value written through a raw constructor is decoded differently by an XML parser]')
+    c09.run(sh)
+    ck.floor('R3.9', sh.count, 30, 'shared C09 R9.1 obligations on the three string writers')
